@@ -106,7 +106,9 @@ PriorQuick ==
     P(Y, a, NoT), P(NoT, NoT, Lst(<<a>>)), P(NoT, LstT(<<b>>, Z), NoT),
     P(Cx("f", <<Y>>), NoT, NoT),
     (* two variables already bound to compound terms which are not identical but unify *)
-    P(Cx("f", <<Z>>), Cx("f", <<b>>), NoT), P(LstT(<<a>>, Z), Lst(<<a, b>>), NoT) }
+    P(Cx("f", <<Z>>), Cx("f", <<b>>), NoT), P(LstT(<<a>>, Z), Lst(<<a, b>>), NoT),
+    (* ... one of them with $_ inside: the values differ only where the $_ is *)
+    P(Cx("g", <<Anon, b>>), Cx("g", <<a, b>>), NoT) }
 PriorMore ==
   { P(Y, Z, NoT), P(Y, Z, a), P(Z, Z, NoT), P(NoT, Z, EmptyList),
     P(Lst(<<Y>>), NoT, NoT), P(LstT(<<a>>, Y), NoT, NoT), P(LstT(<<a>>, Y), Lst(<<b>>), NoT),
@@ -115,7 +117,7 @@ PriorMore ==
     P(Lst(<<Y, Z>>), a, NoT), P(NoT, NoT, LstT(<<X>>, Y)), P(Z, NoT, LstT(<<a>>, Y)),
     P(Cx("f", <<Anon>>), NoT, NoT), P(Lst(<<a, Anon>>), NoT, NoT), P(Y, Lst(<<Z>>), b),
     P(Z, Cx("g", <<a, Anon>>), Cx("g", <<Anon, b>>)), P(Cx("g", <<Z, a>>), Cx("g", <<b, Z>>), NoT),
-    P(Lst(<<Z, b>>), LstT(<<a>>, Z), NoT) }
+    P(Lst(<<Z, b>>), LstT(<<a>>, Z), NoT), P(Lst(<<a, Anon>>), Lst(<<a, b>>), NoT), P(Cx("f", <<Cx("f", <<Anon>>)>>), NoT, Cx("f", <<Cx("f", <<a>>)>>)) }
 PriorPlain == IF Thorough THEN PriorQuick \cup PriorMore ELSE PriorQuick
 PriorFn    == { P(NoT, NoT, NoT), P(IntT(5), NoT, NoT), P(Y, IntT(3), NoT), P(a, NoT, NoT),
                 P(Lst(<<a, Atom("?")>>), NoT, NoT),
